@@ -102,7 +102,12 @@ def corr(ctx, gname, lines, project, lib=None, nontrivial=None, exhaustive=False
                     mism.append((ln, a, b, pa, pb))
         ctx.rep.add_cases(gname, part, c_out, nontrivial, exhaustive=exhaustive, note=note)
         total += len(part)
-    mism.sort(key=lambda t: len(t[0]))
+    def is_genuine(t):
+        ln, a, b = t[0], t[1], t[2]
+        g = genuine(ln, a, b) if callable(genuine) else genuine
+        return bool(g and not (level is not None and level(ln, a) == level(ln, b)))
+    # counterexamples to the property first (shortest first), then mere divergences from the model
+    mism.sort(key=lambda t: (not is_genuine(t), len(t[0])))
     for ln, a, b, pa, pb in mism[:ctx.mismatch_budget]:
         obj = {'kind': 'correspondence', 'correspondence': 'corr:%s/%s' % (ctx.pid, gname), 'case': ln,
                'build': dict(zip(('rfc20', 'f5322', 'uscore', 'extra', 'san'), lib.cfg)),
@@ -530,7 +535,7 @@ def check_C09(ctx):
     doms += [p + b'x' * n for n in range(0, 70) for p in (b'', b'a.', b'example.', b'a.b.')] + [d for d in sub(ctx, gens.dom_boundary(), 5)]
     corr(ctx, 'is_special_domain', ['S %s' % hx(d) for d in doms], lambda ln, o: o, exhaustive=True, describe=desc,
          nontrivial=lambda ln, o: True, note='0-3 labels of lengths 1-63 and the words example/mailbox/test/com... before each reserved suffix and its one-edit neighbours, several case patterns')
-    doms = doms + [a[a.rfind(b'@') + 1:] for a in src_addrs(ctx) if a.startswith(b'a@') and b'[' not in a and a.count(b'@') == 1]
+    doms = doms + [a[a.rfind(b'@') + 1:] for a in src_addrs(ctx) if a.startswith(b'a@') and b'[' not in a and a.count(b'@') == 1] + gens.mapped_variants()
     valid = [d for d in doms if not d.endswith(b'.') and b'..' not in d and not d.startswith(b'.')]
     orc = vlib.idn_oracle(valid)
     corr(ctx, 'email(tld on)', gens.e_lines([b'u@' + d for d in valid], orc, tlds=(1,)), first_fields(1), describe=desc, nontrivial=nontriv_addr, level=lvl_email(fields=()))
@@ -552,6 +557,8 @@ def check_C08(ctx):
         byclass.setdefault(t, bytes.fromhex(nme))
     addrs = [b'a@b.' + v for v in byclass.values()] + [b'a@test', b'a@x.example.com', b'a@[1.2.3.4]', b'a@[IPv6:::1]', b'a@b', b'a@b.zz-unlisted', b'a@localhost',
              'a@б.рф'.encode(), b'bad', b'a@-b.com']
+    # reserved and listed names spelt so that only the IDNA mapping turns them into ASCII (full-width letters, ideographic full stop, soft hyphen)
+    addrs += [b'a@' + d for d in sub(ctx, gens.mapped_variants(), 3)]
     orc = vlib.idn_oracle(gens.domains_of(addrs))
     masks = sorted(set([0, 2047, 760, -1] + [1 << k for k in range(12)] + [2047 ^ (1 << k) for k in range(11)]))
     al = ['A i r%d t%d m%d s %s x f' % (m, t, mk, gens.enc_e(a, orc)) for a in addrs for m in range(4) for t in (0, 1) for mk in masks]
@@ -755,6 +762,15 @@ def check_C13(ctx):
     for x, y in seqs:
         for m in ((3, 1) if not ctx.thorough() else (0, 1, 2, 3)):
             pairs.append('A i r%d s %s %s x f' % (m, gens.enc_e(x, orc2), gens.enc_e(y, orc2)))
+            fresh.append('A i r%d s %s x f' % (m, gens.enc_e(y, orc2)))
+    # long homogeneous and alternating runs: the N-th validation on one object must be what the first one on a fresh object is, for every N
+    # that the sources mention as a number, and for the usual suspects (a counter, a cache that fills up, a buffer reused every k calls)
+    _, nums = gens.source_dictionary(ctx.snap.src)
+    runs_n = sorted(set([n for n in nums if 2 <= n <= 300] + list(range(2, 34)) + [63, 64, 65, 100, 127, 128, 129, 255, 256, 257, 1000]))
+    for n in runs_n:
+        for (x, y, m) in ((b'a@b.com', b'a@b.adac', 3), (b'a@xn--a', b'a@b.com', 3), (b'a@[1.2.3.4]', b'bad', 1), ('я@почта.рф'.encode(), b'a@test', 3)):
+            body = ' '.join([gens.enc_e(x, orc2)] * (n - 1))
+            pairs.append('A i r%d s %s %s x f' % (m, body, gens.enc_e(y, orc2)))
             fresh.append('A i r%d s %s x f' % (m, gens.enc_e(y, orc2)))
     c_p, _ = vlib.run_both(lib, ctx.snap, pairs)
     c_f, _ = vlib.run_both(lib, ctx.snap, fresh)
@@ -1191,7 +1207,7 @@ def check_C05(ctx):
 def check_C10(ctx):
     step_proof(ctx)
     lib = ctx.snap.lib()
-    doms = gens.idn_domains(ctx.rnd, 3000 if not ctx.thorough() else 30000)
+    doms = gens.idn_domains(ctx.rnd, 3000 if not ctx.thorough() else 30000) + gens.mapped_variants()
     import csv
     raw = list(csv.reader(open(os.path.join(ctx.snap.src, 'data', 'raw.csv'), newline='', encoding='utf-8')))[1:]
     doms += [('mail.' + r[0]).encode() for r in raw if any(ord(ch) > 127 for ch in r[0])]
@@ -1314,6 +1330,13 @@ def cli_files(rnd, n, big):
     for tri in itertools.permutations(pool, 3):
         if any(x[:5] in (b'a@xn-', b'a@\xff') for x in tri[:2]):
             files.append(b'\n'.join(tri) + b'\n')
+    # N lines, for N around every power of two and the round numbers (a counter, a buffer that fills, a table of fixed size in the tool)
+    for k in list(range(1, 20)) + [31, 32, 33, 63, 64, 65, 100, 127, 128, 129, 255, 256, 257, 1000, 1023, 1024, 1025, 4096]:
+        files.append(b'a@b.com\n' * k)
+        files.append(b''.join((b'a@b.com\n', b'bad\n', b'#c\n', b' a@xn--a \n')[j % 4] for j in range(k)))
+    # line lengths around the sizes a line buffer might have
+    for k in (118, 119, 120, 126, 127, 128, 129, 254, 255, 256, 257, 510, 511, 512, 513, 1022, 1023, 1024, 1025, 4094, 4095, 4096, 4097):
+        files.append(b'a' * k + b'\n' + b'a@b.com\n'); files.append(b'a@' + b'b' * k + b'\r\n' + b'x@y.org'); files.append(b' ' + b'\xd0\xb0' * (k // 2) + b'@b.com \n')
     files += [b'', b'\n', b'\n\n\n', b' \n', b'a@b.com', b'a@b.com\r', b'a@b.com\r\r\n', b'#\n', b'#', b' ', b'\x00\n', b'a@b.com\n\n \n#c\n good@xn--p1ai.com \n']
     return files
 
@@ -1445,7 +1468,7 @@ def check_C14(ctx):
 # ------------------------------------------------------------------ C18
 def check_C18(ctx):
     step_proof(ctx)
-    addrs = sorted(set(gens.addr_structured() + gens.addr_class(3) + sub(ctx, gens.addr_boundary(), 3) + [b'u@' + d for d in sub(ctx, gens.reserved_domains(), 13) if b'@' not in d] +
+    addrs = sorted(set(gens.addr_structured() + gens.addr_class(3) + sub(ctx, gens.addr_boundary(), 3) + [b'u@' + d for d in sub(ctx, gens.reserved_domains(), 13) if b'@' not in d] + [b'u@' + d for d in gens.mapped_variants()] +
                        [b'u@' + d for d in gens.idn_domains(ctx.rnd, 300) if b'@' not in d]))
     orc = vlib.idn_oracle(gens.domains_of(addrs) | gens.domains_of(gens.HIST_POOL))
     el = gens.e_lines(addrs, orc)
@@ -1527,9 +1550,10 @@ def c06_corpus(ctx):
         for k in '46P':
             I.append('%s %s %s' % (k, hx(c), hx(b']'))); I.append('%s %s -' % (k, hx(c)))
     S = ['S %s' % hx(d) for d in gens.reserved_domains()] + ['T %s' % hx(d) for d in sub(ctx, gens.reserved_domains(), 3)] + ['S %s' % hx(d) for d in gens.dom_class(4)]
+    S += ['S %s' % hx(d) for d in gens.last_two_label_lengths()]
     S += ['S %s' % hx(d) for d in gens.dom_boundary()] + ['T %s' % hx(d) for d in sub(ctx, gens.dom_boundary(), 4)] + ['S %s' % hx(b'b.' + b'x' * n) for n in range(0, 300)]
     addrs = gens.addr_class(4) + gens.addr_structured() + gens.addr_boundary() + [b'u@[' + c + b']' for c in sub(ctx, gens.ip_contents(), 2)]
-    addrs += [b'u@' + d for d in sub(ctx, gens.dom_boundary(), 2)] + [b'u@b.' + b'x' * n for n in range(1, 80)]
+    addrs += [b'u@' + d for d in sub(ctx, gens.dom_boundary(), 2)] + [b'u@b.' + b'x' * n for n in range(1, 80)] + [b'u@' + d for d in gens.last_two_label_lengths()]
     # every byte value at the structural positions of an address
     for c in range(1, 256):
         ch = bytes([c])
